@@ -20,6 +20,7 @@ import (
 
 type vfFaultPlan struct {
 	Outage  bool
+	ReadOutage bool // only reads (SELECT) fail: the store does not answer a request's lookup in time but takes its write
 	FailAt  int    // 1-based operation number to fail at (0 = none)
 	Kind    string // "error" | "crash"
 	Count   int    // operations seen since the plan was armed
@@ -60,6 +61,20 @@ func (w *vfWorld) setPrimaryOutage(on bool) {
 	}
 }
 
+// setPrimaryReadOutage: the primary does not answer reads (they fall through to
+// the cache at once, as in an outage) but it is reachable again by the time the
+// same request writes - "primary outage at any point of a request".
+func (w *vfWorld) setPrimaryReadOutage(on bool) {
+	vfFaultMu.Lock()
+	vfFaults["primary"].ReadOutage = on
+	vfFaultMu.Unlock()
+	if on {
+		w.state.remoteDBQueryTimeout = 0
+	} else {
+		w.state.remoteDBQueryTimeout = 2 * time.Second
+	}
+}
+
 func vfFaultOutage(db string, on bool) {
 	vfFaultMu.Lock()
 	vfFaults[db].Outage = on
@@ -88,6 +103,10 @@ func vfFaultStep(label, op string) (err error, crash bool) {
 		// (see vfWorld.setPrimaryOutage) reads fall through to the cache at
 		// once and writes fail, deterministically and without waiting.
 		return errors.New("vfault: database unreachable"), false
+	}
+	if p.ReadOutage && strings.Contains(strings.ToLower(op), "select") {
+		vfFaultMu.Unlock()
+		return errors.New("vfault: database does not answer reads"), false
 	}
 	p.Count++
 	if len(p.Log) < 200 {
